@@ -52,6 +52,21 @@ Proof.
   split; apply handN_b; vm_compute; reflexivity.
 Qed.
 
+From CKC Require Import Model.Proj Proofs.ProjC08.
+(* the `shiftinv` line of the correspondence check is the constant `1 1 1 1 1 1 1` on five, six or seven distinct
+   real cards: plain and validated value unchanged by one, two, three shifts; four shifts restore the hand.
+   (The validated fields also use "distinct real cards form a valid hand", Proofs/ValidReal.v.) *)
+Theorem C08_projection : forall chk n ws,
+  (n = 5 \/ n = 6 \/ n = 7)%nat -> HandN n ws ->
+  proj_shiftinv chk ws = [Ok true; Ok true; Ok true; Ok true; Ok true; Ok true; Ok true].
+Proof. exact proj_shiftinv_const. Qed.
+(* the `relabel` line of the correspondence check is the constant `1 1` on five, six or seven distinct real cards:
+   plain and validated value unchanged by all 24 rearrangements of the four suit variants, the cards being rebuilt
+   through get_card_rank / get_card_suit / create *)
+Theorem C08_projection_relabel : forall chk n ws,
+  (n = 5 \/ n = 6 \/ n = 7)%nat -> HandN n ws -> proj_relabel chk ws = Ok [true; true].
+Proof. exact proj_relabel_const. Qed.
+
 Print Assumptions C08_card.
 Print Assumptions C08_cycle.
 Print Assumptions C08_blank.
@@ -60,3 +75,5 @@ Print Assumptions C08_relabel_invariant.
 Print Assumptions C08_relabel_same.
 Print Assumptions C08_shift_invariant.
 Print Assumptions C08_shift_is_relabel.
+Print Assumptions C08_projection.
+Print Assumptions C08_projection_relabel.
